@@ -913,8 +913,8 @@ LEVEL_TEXT = ('Proof: for a hand-written Coq model of RectPartition / RectGrid /
               'findings (one-point axes: cell size 0.0 and nodes_on_bdry placement; stepped slices / index lists keep the '
               'hull; integers below -n accepted; zero-extent axes have non-strict boundaries).')
 LEVEL_NOTE = ('Also proved: byaxis (selected axes unchanged), ellipsis / too-few-indices / integer normalisation, default '
-              'limits of nonuniform_partition and uniform_partition_fromgrid. Validated, not proved: the model itself '
-              '(correspondence), index lists with gaps, negative steps, squeeze(axis) for partial selections. '
+              'limits of nonuniform_partition and uniform_partition_fromgrid (also explicit ones), increasing index lists, rejection of negative steps, squeeze(axis=i). Validated, not proved: the model itself '
+              '(correspondence), unsorted/negative index lists, single-point negative steps, squeeze(axis=list|slice). '
               'np.isclose/allclose decisions are modelled as exact equality; float rounding is out of scope. '
               'Axioms: classical reals + funext as printed by Print Assumptions (insert/append/squeeze theorems are closed).')
 TECHNIQUE = 'Coq proofs by list induction over a hand-written model + in-Coq differential correspondence'
